@@ -220,6 +220,13 @@ def run_truncations(rep, n=1500):
     E, B, _ = bounds()
     cases = os.path.join(verif.BUILD, "trunc_cases_%s.txt" % rep.pid)
     rc, out = verif.sh([PSEARCH, "gen", "-mode", "truncate", "-n", str(n)], timeout=900)
+    # ... and of grammar statements of every kind (utility / DDL statements are rare in the corpus sample)
+    gram = os.path.join(verif.BUILD, "grammar_trunc_%s.txt" % rep.pid)
+    rcg, outg = verif.sh(["python3", os.path.join(verif.ROOT, "checks", "gen_sql_grammar.py"), str(rep.seed), "400" if n else "20000"], timeout=900)
+    if rcg == 0 and outg.strip():
+        open(gram, "w").write(outg)
+        rc2, out2 = verif.sh([PSEARCH, "gen", "-mode", "truncate", "-n", "0", "-corpus", gram], timeout=900)
+        out += out2
     open(cases, "w").write(out)
     outp = cases + ".out"
     verif.parallel_map_files([PSEARCH, "run", "-E", str(E), "-B", str(B)], cases, outp, timeout=3000)
